@@ -77,7 +77,7 @@ func tcpSegment(src, dst []byte, sport, dport uint16, seq, ack uint32, flags int
 
 // ipv4Packet builds a 20 byte IPv4 header (no options) followed by the payload.
 // foff is the fragment offset in bytes (multiple of 8).
-func ipv4Packet(src, dst []byte, id uint16, foff int, mf bool, payload []byte) []byte {
+func ipv4Packet(src, dst []byte, proto byte, id uint16, foff int, mf bool, payload []byte) []byte {
 	b := make([]byte, 20+len(payload))
 	b[0] = 0x45
 	binary.BigEndian.PutUint16(b[2:], uint16(len(b)))
@@ -88,7 +88,7 @@ func ipv4Packet(src, dst []byte, id uint16, foff int, mf bool, payload []byte) [
 	}
 	binary.BigEndian.PutUint16(b[6:], fo)
 	b[8] = 64
-	b[9] = 6
+	b[9] = proto
 	copy(b[12:], src)
 	copy(b[16:], dst)
 	binary.BigEndian.PutUint16(b[10:], ipChecksum(b[:20]))
